@@ -18,9 +18,10 @@
    The attacker may try every banker operation with every value it holds; the guards are the
    code's: NewBanker requires IsCurrent (switch CurrentCheck) and, for OriginSend, that the
    previous realm is a user call; SendCoins requires from = the banker's address (FromCheck) and,
-   for OriginSend bankers, spent + amt <= sent with spent advanced (OriginDecrement); IssueCoin /
+   for OriginSend bankers, spent + amt <= sent with spent advanced to the running total of ALL sends of the
+   message (OriginDecrement, OriginTotal); IssueCoin /
    RemoveCoin require the denomination to carry the banker's realm path (DenomCheck).
-   Invariants = BankerAuth.tla (the statement).  The four switches are the mutants: with any of
+   Invariants = BankerAuth.tla (the statement).  The five switches are the mutants: with any of
    them FALSE TLC finds a violation (Banker_m*.cfg), which is how the invariants are shown not to
    be vacuous.
 
@@ -29,23 +30,23 @@
    transactions through the storV / storM terms of BankerAuth). *)
 EXTENDS BankerAuth, Sequences, FiniteSets, TLC, Json
 
-CONSTANTS FromCheck, CurrentCheck, OriginDecrement, DenomCheck, MaxTx, MaxOps
+CONSTANTS FromCheck, CurrentCheck, OriginDecrement, OriginTotal, DenomCheck, MaxTx, MaxOps
 
-Addrs == {"u1", "u2", "att", "vault", "vdep", "mal", "mdep", "coll"}
+Addrs == {"u1", "u2", "att", "vault", "vdep", "mal", "mdep", "rtr", "rdep", "coll"}
 AddrOf == [w \in {"vault", "mal", "run"} |-> CASE w = "vault" -> "vault" [] w = "mal" -> "mal" [] OTHER -> "att"]
 PathOf == [w \in {"vault", "mal", "run"} |-> w]
 
-VARIABLES bal, balV, frames, code, toks, caps, tx, osend, ospent, ntok, ntx, nops, grants, pre, preV, done
-vars == <<bal, balV, frames, code, toks, caps, tx, osend, ospent, ntok, ntx, nops, grants, pre, preV, done>>
+VARIABLES bal, balV, frames, code, toks, caps, tx, osend, ospent, ntok, ntx, nops, grants, pre, preV, done, left
+vars == <<bal, balV, frames, code, toks, caps, tx, osend, ospent, ntok, ntx, nops, grants, pre, preV, done, left>>
 
-NoTx == [signer |-> "none", fee |-> 0, sends |-> 0, sendsV |-> 0, maxdep |-> 0, locked |-> 0, run |-> FALSE, spends |-> 0, deleg |-> 0, issues |-> 0, storV |-> 0, storM |-> 0]
+NoTx == [signer |-> "none", fee |-> 0, sends |-> 0, sendsV |-> 0, maxdep |-> 0, locked |-> 0, run |-> FALSE, spends |-> 0, deleg |-> 0, issues |-> 0, storV |-> 0, storM |-> 0, storR |-> 0, ogrant |-> 0]
 
 Init ==
   /\ bal = [a \in Addrs |-> CASE a \in {"u1", "att", "vault"} -> 3 [] a = "u2" -> 2 [] a = "vdep" -> 1 [] OTHER -> 0]
   /\ balV = [a \in Addrs |-> IF a = "u2" THEN 1 ELSE 0]
   /\ frames = <<>> /\ code = "none" /\ toks = {} /\ caps = {} /\ tx = NoTx
   /\ osend = 0 /\ ospent = 0 /\ ntok = 0 /\ ntx = 0 /\ nops = 0 /\ grants = {} /\ done = FALSE
-  /\ pre = bal /\ preV = balV
+  /\ pre = bal /\ preV = balV /\ left = 0
 
 InTx == tx.signer # "none"
 Top == frames[Len(frames)]
@@ -54,6 +55,13 @@ Tok(id, who, pu) == [id |-> id, addr |-> AddrOf[who], path |-> PathOf[who], prev
 \* the origin realm value at the bottom of every Previous() chain: the signer's address, never live
 Origin(signer) == [id |-> 0 - 1, addr |-> signer, path |-> "", prevUser |-> FALSE]
 Move(b, from, to, n) == [b EXCEPT ![from] = @ - n, ![to] = @ + n]
+
+\* the origin-send envelope (banker.go, btOriginSend): a send of n is admitted iff spent + n <= sent, and the budget
+\* then remembers the RUNNING TOTAL of everything sent through origin-send bankers in this message.
+\* Mutant switches: OriginDecrement = FALSE - the budget is never advanced; OriginTotal = FALSE - it remembers only
+\* the last send (any sequence whose adjacent sends fit is then admitted, e.g. 3 x sent/2).
+OriginOK(n) == ospent + n <= osend
+OriginAfter(n) == IF ~OriginDecrement THEN ospent ELSE IF OriginTotal THEN ospent + n ELSE n
 
 \* everything Previous() reaches from the frames the attacker's code runs in
 Reachable(fs) == {Tok(fs[i].tok, fs[i].who, fs[i].prevUser) : i \in 1..Len(fs)} \cup {Origin(tx.signer)}
@@ -72,7 +80,7 @@ Begin(signer, target, send) ==
   /\ code' = IF target = "vault" THEN "vault" ELSE "att"
   /\ toks' = IF target = "vault" THEN {} ELSE {Tok(ntok, target, TRUE), Origin(signer)}
   /\ ntok' = ntok + 1 /\ osend' = send /\ ospent' = 0 /\ ntx' = ntx + 1 /\ nops' = 0
-  /\ UNCHANGED <<balV, caps, grants, done>>
+  /\ UNCHANGED <<balV, caps, grants, done, left>>
 
 \* ---- the honest realm's function bodies (code = "vault", a vault frame on top)
 VaultRuns == InTx /\ code = "vault" /\ Top.who = "vault"
@@ -83,7 +91,7 @@ VWithdraw ==
   /\ tx' = [tx EXCEPT !.spends = @ + 1]
   /\ bal' = Move(bal, "vault", "u1", 1)
   /\ code' = "ret"
-  /\ UNCHANGED <<balV, frames, toks, caps, osend, ospent, ntok, ntx, nops, grants, pre, preV, done>>
+  /\ UNCHANGED <<balV, frames, toks, caps, osend, ospent, ntok, ntx, nops, grants, pre, preV, done, left>>
 
 \* Forward(n): send the coins that came with the call n times through an OriginSend banker
 VForward(n, to) ==
@@ -93,47 +101,69 @@ VForward(n, to) ==
        /\ bal' = Move(bal, "vault", to, n * osend)
        /\ ospent' = IF OriginDecrement THEN ospent + n * osend ELSE ospent
   /\ code' = "ret"
+  /\ UNCHANGED <<balV, frames, toks, caps, tx, osend, ntok, ntx, nops, grants, pre, preV, done, left>>
+
+\* PayParts(k): the vault pays k instalments of one unit each through ONE OriginSend banker (ForwardParts)
+VStartPay(k) ==
+  /\ VaultRuns /\ Top.prevUser /\ osend > 0
+  /\ code' = "vpay" /\ left' = k
+  /\ UNCHANGED <<bal, balV, frames, toks, caps, tx, osend, ospent, ntok, ntx, nops, grants, pre, preV, done>>
+
+VPayStep ==
+  /\ InTx /\ code = "vpay" /\ left > 0
+  /\ OriginOK(1) /\ bal["vault"] >= 1           \* otherwise the send panics and the transaction is rolled back
+  /\ bal' = Move(bal, "vault", "att", 1) /\ ospent' = OriginAfter(1) /\ left' = left - 1
+  /\ code' = IF left = 1 THEN "ret" ELSE "vpay"
   /\ UNCHANGED <<balV, frames, toks, caps, tx, osend, ntok, ntx, nops, grants, pre, preV, done>>
+
+\* PayoutVia: the vault hands an OriginSend banker over its own address to a third-party router (attacker code).
+\* Within this transaction the banker stays inside the envelope; it only becomes a grant for later transactions.
+VHandOrigin ==
+  /\ VaultRuns /\ Top.prevUser
+  /\ tx' = [tx EXCEPT !.ogrant = @ + 1]
+  /\ caps' = caps \cup {[typ |-> "origin", addr |-> "vault", path |-> "vault"]}
+  /\ code' = "att"
+  /\ UNCHANGED <<bal, balV, frames, toks, osend, ospent, ntok, ntx, nops, grants, pre, preV, done, left>>
 
 VMint(to) ==
   /\ VaultRuns /\ CallerIsAdmin
   /\ tx' = [tx EXCEPT !.issues = @ + 1]
   /\ balV' = [balV EXCEPT ![to] = @ + 1]
   /\ code' = "ret"
-  /\ UNCHANGED <<bal, frames, toks, caps, osend, ospent, ntok, ntx, nops, grants, pre, preV, done>>
+  /\ UNCHANGED <<bal, frames, toks, caps, osend, ospent, ntok, ntx, nops, grants, pre, preV, done, left>>
 
 VBurn(from) ==
   /\ VaultRuns /\ CallerIsAdmin /\ balV[from] >= 1
   /\ tx' = [tx EXCEPT !.issues = @ + 1]
   /\ balV' = [balV EXCEPT ![from] = @ - 1]
   /\ code' = "ret"
-  /\ UNCHANGED <<bal, frames, toks, caps, osend, ospent, ntok, ntx, nops, grants, pre, preV, done>>
+  /\ UNCHANGED <<bal, frames, toks, caps, osend, ospent, ntok, ntx, nops, grants, pre, preV, done, left>>
 
 \* Visit(cb): caller-supplied code runs inside the vault's frame; it gets no realm value
 VVisit ==
   /\ VaultRuns /\ code' = "att"
-  /\ UNCHANGED <<bal, balV, frames, toks, caps, tx, osend, ospent, ntok, ntx, nops, grants, pre, preV, done>>
+  /\ UNCHANGED <<bal, balV, frames, toks, caps, tx, osend, ospent, ntok, ntx, nops, grants, pre, preV, done, left>>
 
 \* Notify(hook): the vault cross-calls a caller-supplied crossing function
 VNotify ==
   /\ VaultRuns /\ Len(frames) < 3
   /\ frames' = Append(frames, [who |-> "mal", tok |-> ntok, prevUser |-> FALSE])
   /\ toks' = toks \cup Reachable(frames') /\ ntok' = ntok + 1 /\ code' = "att"
-  /\ UNCHANGED <<bal, balV, caps, tx, osend, ospent, ntx, nops, grants, pre, preV, done>>
+  /\ UNCHANGED <<bal, balV, caps, tx, osend, ospent, ntx, nops, grants, pre, preV, done, left>>
 
 \* Delegate(cb): the documented way to give authority away - the LIVE realm value is passed on
 VDelegate ==
   /\ VaultRuns
   /\ tx' = [tx EXCEPT !.deleg = @ + 1] /\ grants' = grants \cup {"vault"}
   /\ toks' = toks \cup {Tok(Top.tok, "vault", Top.prevUser)} /\ code' = "att"
-  /\ UNCHANGED <<bal, balV, frames, caps, osend, ospent, ntok, ntx, nops, pre, preV, done>>
+  /\ UNCHANGED <<bal, balV, frames, caps, osend, ospent, ntok, ntx, nops, pre, preV, done, left>>
 
 \* Leak: the realm value is RETURNED; by then the frame is gone and the value is stale
 VLeak ==
   /\ VaultRuns /\ Len(frames) > 1
   /\ toks' = toks \cup {Tok(Top.tok, "vault", Top.prevUser)}
   /\ frames' = SubSeq(frames, 1, Len(frames) - 1) /\ code' = "att"
-  /\ UNCHANGED <<bal, balV, caps, tx, osend, ospent, ntok, ntx, nops, grants, pre, preV, done>>
+  /\ UNCHANGED <<bal, balV, caps, tx, osend, ospent, ntok, ntx, nops, grants, pre, preV, done, left>>
 
 \* ---- attacker code
 AttRuns == InTx /\ code = "att" /\ nops < MaxOps
@@ -144,53 +174,55 @@ AMint(typ, t) ==
   /\ CurrentCheck => t.id = Live
   /\ typ = "origin" => t.prevUser
   /\ caps' = caps \cup {[typ |-> typ, addr |-> t.addr, path |-> t.path]}
-  /\ Op /\ UNCHANGED <<bal, balV, frames, code, toks, tx, osend, ospent, ntok, ntx, grants, pre, preV, done>>
+  /\ Op /\ UNCHANGED <<bal, balV, frames, code, toks, tx, osend, ospent, ntok, ntx, grants, pre, preV, done, left>>
 
 ASend(c, from, to) ==
   /\ AttRuns /\ c \in caps /\ bal[from] >= 1
   /\ FromCheck => from = c.addr
-  /\ c.typ = "origin" => ospent + 1 <= osend
-  /\ ospent' = IF c.typ = "origin" /\ OriginDecrement THEN ospent + 1 ELSE ospent
+  /\ c.typ = "origin" => OriginOK(1)
+  /\ ospent' = IF c.typ = "origin" THEN OriginAfter(1) ELSE ospent
   /\ bal' = Move(bal, from, to, 1)
-  /\ Op /\ UNCHANGED <<balV, frames, code, toks, caps, tx, osend, ntok, ntx, grants, pre, preV, done>>
+  /\ Op /\ UNCHANGED <<balV, frames, code, toks, caps, tx, osend, ntok, ntx, grants, pre, preV, done, left>>
 
 AIssue(c, to, owner) ==
   /\ AttRuns /\ c \in caps /\ c.typ = "issue"
   /\ DenomCheck => owner = c.path
   /\ owner = "vault"                       \* only the vault's denomination is tracked
   /\ balV' = [balV EXCEPT ![to] = @ + 1]
-  /\ Op /\ UNCHANGED <<bal, frames, code, toks, caps, tx, osend, ospent, ntok, ntx, grants, pre, preV, done>>
+  /\ Op /\ UNCHANGED <<bal, frames, code, toks, caps, tx, osend, ospent, ntok, ntx, grants, pre, preV, done, left>>
 
 ARemove(c, from, owner) ==
   /\ AttRuns /\ c \in caps /\ c.typ = "issue" /\ balV[from] >= 1
   /\ DenomCheck => owner = c.path
   /\ owner = "vault"
   /\ balV' = [balV EXCEPT ![from] = @ - 1]
-  /\ Op /\ UNCHANGED <<bal, frames, code, toks, caps, tx, osend, ospent, ntok, ntx, grants, pre, preV, done>>
+  /\ Op /\ UNCHANGED <<bal, frames, code, toks, caps, tx, osend, ospent, ntok, ntx, grants, pre, preV, done, left>>
 
 \* the attacker cross-calls a vault function from its own crossing frame (the vault's previous realm is not a user)
 ACrossVault ==
   /\ AttRuns /\ Len(frames) < 3 /\ Top.who # "vault"
   /\ frames' = Append(frames, [who |-> "vault", tok |-> ntok, prevUser |-> FALSE])
   /\ ntok' = ntok + 1 /\ code' = "vault"
-  /\ Op /\ UNCHANGED <<bal, balV, toks, caps, tx, osend, ospent, ntx, grants, pre, preV, done>>
+  /\ Op /\ UNCHANGED <<bal, balV, toks, caps, tx, osend, ospent, ntx, grants, pre, preV, done, left>>
 
 \* return from the top frame (attacker code or a finished vault function)
 Return ==
   /\ InTx /\ code \in {"att", "ret"} /\ Len(frames) > 1
   /\ frames' = SubSeq(frames, 1, Len(frames) - 1)
   /\ code' = IF frames[Len(frames) - 1].who = "vault" THEN "ret" ELSE "att"
-  /\ UNCHANGED <<bal, balV, toks, caps, tx, osend, ospent, ntok, ntx, nops, grants, pre, preV, done>>
+  /\ UNCHANGED <<bal, balV, toks, caps, tx, osend, ospent, ntok, ntx, nops, grants, pre, preV, done, left>>
 
 End ==
   /\ InTx /\ code \in {"att", "ret"}
   /\ frames' = <<>> /\ code' = "none" /\ toks' = {} /\ tx' = NoTx /\ osend' = 0 /\ ospent' = 0
-  /\ done' = (ntx >= MaxTx)
-  /\ UNCHANGED <<bal, balV, caps, ntok, ntx, nops, grants, pre, preV>>
+  /\ done' = (ntx >= MaxTx) /\ left' = 0
+  /\ grants' = IF tx.ogrant > 0 THEN grants \cup {"vault"} ELSE grants
+  /\ UNCHANGED <<bal, balV, caps, ntok, ntx, nops, pre, preV>>
 
 Next ==
-  \/ \E s \in {"u1", "att"}, t \in {"vault", "mal", "run"}, n \in 0..1 : Begin(s, t, n)
-  \/ VWithdraw \/ VVisit \/ VNotify \/ VDelegate \/ VLeak
+  \/ \E s \in {"u1", "att"}, t \in {"vault", "mal", "run"}, n \in 0..2 : Begin(s, t, n)
+  \/ VWithdraw \/ VVisit \/ VNotify \/ VDelegate \/ VLeak \/ VHandOrigin \/ VPayStep
+  \/ \E k \in 1..3 : VStartPay(k)
   \/ \E n \in 1..2, to \in {"u2", "att"} : VForward(n, to)
   \/ \E a \in {"u1", "att"} : VMint(a)
   \/ \E a \in {"u2", "att"} : VBurn(a)
@@ -205,6 +237,8 @@ Spec == Init /\ [][Next]_vars
 InvDecrease == InTx => DecreaseOnlyWithAuthority(pre, bal, tx, grants)
 InvDenom == InTx => RealmDenomAuthority(preV, balV, tx, grants)
 \* a banker over the vault's address exists only after a delegation
-InvCapsNeedGrant == (\E c \in caps : c.addr = "vault") => "vault" \in grants
-InvOriginSpent == ospent <= osend
+InvCapsNeedGrant == (\E c \in caps : c.addr = "vault") => ("vault" \in grants \/ tx.ogrant > 0)
+\* whatever leaves through origin-send bankers in one message never exceeds what came with it: the vault's balance
+\* never drops below its pre-transaction value unless RealmSend authority was exercised (part of InvDecrease)
+InvOriginNet == (InTx /\ tx.spends = 0 /\ tx.deleg = 0 /\ "vault" \notin grants) => bal["vault"] >= pre["vault"]
 =============================================================================
